@@ -144,8 +144,20 @@ def main():
             continue
         i, j = txt.index(a) + len(a), txt.index(b)
         txt = txt[:i] + "\n" + v + "\n" + txt[j:]
+    # counts quoted in the hand-written prose
+    import subprocess
+    try:
+        nfix = len(subprocess.check_output(["git", "-C", "/repo", "log", "--oneline", "--grep", "^fix:"], text=True).splitlines())
+    except Exception:
+        nfix = None
+    if nfix:
+        txt = re.sub(r"\b\d+ `fix:` commits in `/repo`", f"{nfix} `fix:` commits in `/repo`", txt)
+        txt = re.sub(r"### 6\.2 Repaired \(\d+ commits;", f"### 6.2 Repaired ({nfix} commits;", txt)
+        txt = re.sub(r"where all \d+ repaired", f"where all {nfix} repaired", txt)
+    nseed = len([d for d in os.listdir(os.path.join(ROOT, "seeded")) if os.path.isdir(os.path.join(ROOT, "seeded", d))])
+    txt = re.sub(r"`BASELINE\.json`\); \d+ independently", f"`BASELINE.json`); {nseed} independently", txt)
     open(p, "w", encoding="utf-8").write(txt)
-    print("theorems", total)
+    print("theorems", total, "fix commits", nfix, "seeds", nseed)
 
 
 if __name__ == "__main__":
